@@ -134,6 +134,25 @@ def r10_1_assignment(ctx):
     except Raised as r:
         raised = r.exc_text
     ctx.check(raised is not None and "TealInternalError" in raised, "R10.1", "assign[two variables request id 7]", "two different variables requesting the same id must be refused", f.where, fact={"raised": raised})
+    # the same requested id in different routines / one shared and one routine-local: still one cell, still refused
+    s1, s2 = Sym("sub1"), Sym("sub2")
+    for name, mk in (
+        ("main and a subroutine request id 7", lambda x, y, g: {None: [x, _slot("z", 600, False)], s1: [y]}),
+        ("two subroutines request id 7", lambda x, y, g: {None: [_slot("z", 600, False)], s1: [x], s2: [y]}),
+        ("a variable used in two routines and a routine-local one request id 7", lambda x, y, g: {None: [g, _slot("z", 600, False)], s1: [g], s2: [y]}),
+        ("a variable used in two routines and one of the main routine request id 0", lambda x, y, g: {None: [g, y], s1: [g]}),
+        ("two variables each used in two routines request id 7", lambda x, y, g: {None: [g, x, _slot("z", 600, False)], s1: [g, x]}),
+        ("two variables each used in two different pairs of routines request id 7", lambda x, y, g: {None: [g], s1: [g, x], s2: [x]}),
+    ):
+        sid = 0 if name.endswith("id 0") else 7
+        B = Blocks()
+        prog, _ = _program(OpS, B, mk(_slot("x", sid, True), _slot("y", sid, True), _slot("g", sid, True)))
+        try:
+            run_function(f.node, {"subroutineBlocks": prog}, make_oracle(OpS, B, oracle_extra), f.fq, resolver=lambda nm: css.node if nm == "collectScratchSlots" else None)
+            raised = None
+        except Raised as r:
+            raised = r.exc_text
+        ctx.check(raised is not None and "TealInternalError" in raised, "R10.1", f"assign[{name}]", "two different variables requesting the same id must be refused wherever they are used (they would share one cell)", f.where, fact={"raised": raised})
     # validateSlots errors stop compilation
     B = Blocks()
     prog, _ = _program(OpS, B, {None: [_slot("x", 600, False)]})
@@ -144,7 +163,7 @@ def r10_1_assignment(ctx):
     except Raised as r:
         raised = r.exc_text
     ctx.check(raised is not None and "TealInternalError" in raised, "R10.1", "assign[validateSlots reports an error]", "an error from the definite-assignment check must stop compilation", f.where, fact={"raised": raised})
-    ctx.require_min("R10.1", 10)
+    ctx.require_min("R10.1", 16)
 
 
 def r10_2_identity(ctx):
